@@ -222,12 +222,33 @@ def clause_state_writes(prog, rep):
                           "mdk-core writes only Created / Processed into a message; invalidation is done by the storage query on the rollback arm",
                           "mdk-core writes MessageState::%s directly" % s["variant"], "%s:%s" % (f.file, s.get("line")))
     rep.floor("message-state-writes", "message state constants written by mdk-core", n, 3)
+    clause_only_after_rollback(prog, rep, "message-state-writes")
+
+
+def clause_only_after_rollback(prog, rep, rule):
+    """invalidation and retry marking belong to a rollback that happened: each such storage call is success-dominated by the manager's
+    rollback call — in its own function, or, when the bookkeeping lives in a helper, at every call site of that helper"""
     rb = lambda c: c.name == "rollback_to_epoch" and last_seg(c.self_adt) == "EpochSnapshotManager"
+
+    def guarded(f, bb, depth=0):
+        gcs = [x for x in f.live_calls() if rb(x)]
+        if gcs:
+            return A.succ_dominated(f, bb, gcs)
+        if depth >= 2:
+            return False
+        sites = []
+        for q in sorted(prog.redges().get(f.path, ())):
+            cf = prog.fns.get(q)
+            if not cf or cf.is_test_like():
+                continue
+            sites += [(cf, x) for x in cf.live_calls() if any(t.path == f.path for t in prog.call_targets(x))]
+        return bool(sites) and all(guarded(cf, x.bb, depth + 1) for cf, x in sites)
     for nm in ("invalidate_messages_after_epoch", "invalidate_processed_messages_after_epoch", "mark_processed_message_retryable"):
         for c in prog.all_calls(lambda x: K.is_storage_trait_call(x, nm), crates=("mdk_core",)):
-            gcs = [x for x in c.fn.live_calls() if rb(x)]
-            rep.check(A.succ_dominated(c.fn, c.bb, gcs), "message-state-writes", "%s/only-after-rollback" % nm,
-                      "%s runs only after a successful rollback" % nm, "%s can run without a preceding successful rollback" % nm, c.loc())
+            rep.check(guarded(c.fn, c.bb), rule, "%s/only-after-rollback" % nm,
+                      "%s runs only after a successful rollback" % nm,
+                      "%s can run without a preceding successful rollback: if the restore is refused (or the process dies before it) the group keeps "
+                      "its epoch but its messages / records stay invalidated" % nm, c.loc())
 
 
 TERMINAL_STATES = ("ProcessedCommit", "Processed", "Failed", "EpochInvalidated")
